@@ -235,6 +235,8 @@ def oracle(case, outcome, ctx):
         l2 = [by[k][1] for k in sorted(by)]
         if any(a < b for a, b in zip(l1, l1[1:])) and any(a < b for a, b in zip(l2, l2[1:])):
             err("haplotigs-not-ranked-by-length", f"total {l1} sequence {l2}")
+    # (unlocs of one chromosome are NOT checked for size order: the statement ranks autosomes and haplotigs by
+    #  length, and the unchanged tree numbers unlocs before cuts and discards change their lengths - DESIGN 5.21)
     # ---- CSV -------------------------------------------------------------------------------------
     ba = outcome["ba"]
     for key, asm in outcome["out_obj"].items():
